@@ -272,6 +272,9 @@ def judge (_id : String) (lines : Array String) : Verdict := Id.run do
           st := st.sf "write-checks-api-and-database" l
         if (served || wrote) && muxCleanPath p ≠ p then
           st := st.sf "path-trick-never-served" l
+        -- whatever is served was authorised as a resource below /api (never /database/…, never the root)
+        if (served || wrote) && (Spec.nodeOf (Spec.apiNodeOf p)).map (·.head?) ≠ some (some "api".toList) then
+          st := st.sf "served-resource-below-api" l
         let model := s!"{out.status} {boolTok out.served} {boolTok out.wrote}"
         if s!"{code} {sv} {wr}" != model then st := st.mm s!"{l}: model {model}"
         st := st.brs (httpBranches cfg req out)
